@@ -42,6 +42,18 @@ def random_valid(ctx, n):
     return cases
 
 
+def special_bounds():
+    """Valid specifications whose bounds stand in a special relation -- symmetric around zero, one bound zero, reciprocal bounds of
+    a log grid, integer powers -- for even and odd numbers of points (1, 2 included)."""
+    cases = []
+    for npts in (1, 2, 3, 4, 5, 6, 9, 10, 16, 33):
+        for kind, start, stop in [("lin", -1, 1), ("lin", -2.5, 2.5), ("lin", -100.0, 100.0), ("lin", 0, 1), ("lin", -3, 0), ("lin", -1, 2), ("lin", 1, 2),
+                                  ("log", 0.5, 2), ("log", 0.1, 10.0), ("log", 1, 8), ("log", 1, 1000.0), ("log", 0.25, 1)]:
+            cases.append({"fn": "grid", "kind": kind, "s": repr(start), "e": repr(stop), "n": repr(npts), "values": [start, stop, npts],
+                          "must_reject": False, "must_accept": False, "nval": npts, "tol": TOL, "label": "bounds in a special relation"})
+    return cases
+
+
 KNOWN_INPUTS = {        # id in known_findings.json -> the exact constructor input
     "D4b-resolution": ("lin", 1.0, 1.0 + 1e-12, 3),
     "D4b-overflow": ("lin", 0.0, 1e308, 2),
@@ -81,6 +93,7 @@ def run(ctx: Ctx) -> Result:
     cases = [{"fn": "grid", "kind": g["kind"], "s": g["s"], "e": g["e"], "n": g["n"], "must_reject": g["must_reject"],
               "must_accept": g["must_accept"], "nval": g["nval"], "tol": TOL, "label": "input classes"} for g in gen]
     cases += random_valid(ctx, ctx.n(300, 5000))
+    cases += special_bounds()
     cases += [{"fn": "dgrid", "cls": c, "either": c in EITHER, "label": "category classes"} for c in CATEGORY]
     for i, c in enumerate(cases):
         c["cid"] = i
